@@ -111,6 +111,8 @@ fn check_case(c: &Case, obs: &mut Obs) {
         Expect::Out => obs.class("expect_invalid"),
         Expect::Amb => obs.class("expect_ambiguous_bound_consistency_only"),
     }
+    obs.class_if(vals.iter().any(|v| *v == 0.0 && v.is_sign_negative()), "has_negative_zero");
+    obs.class_if(vals.iter().any(|v| *v != 0.0 && v.abs() < f32::MIN_POSITIVE as f64 * 0.5), "has_denormal_or_tiny_value");
     obs.class_if(n_out >= 2, "two_or_more_out_of_range");
     obs.class_if(cross == Expect::Out, "cross_constraint_violated");
     obs.class_if(n_nondefault == 0, "all_default");
